@@ -583,14 +583,18 @@ impl FormatSpec {
     {
         self.validate_format(FormatType::String)?;
         match self.format_type {
-            Some(FormatType::String) | None => self
-                .format_sign_and_align(s, "", FormatAlign::Left)
-                .map(|mut value| {
-                    if let Some(precision) = self.precision {
-                        value.truncate(precision);
-                    }
-                    value
-                }),
+            Some(FormatType::String) | None => match self.precision {
+                // the precision truncates the text (by characters) before it is padded
+                Some(precision) if precision < s.char_len() => {
+                    let truncated: String = s.chars().take(precision).collect();
+                    let truncated = CountedStr {
+                        inner: &truncated,
+                        char_len: precision,
+                    };
+                    self.format_sign_and_align(&truncated, "", FormatAlign::Left)
+                }
+                _ => self.format_sign_and_align(s, "", FormatAlign::Left),
+            },
             _ => {
                 let ch = char::from(self.format_type.as_ref().unwrap());
                 Err(FormatSpecError::UnknownFormatCode(ch, "str"))
@@ -660,6 +664,24 @@ struct AsciiStr<'a> {
 impl<'a> AsciiStr<'a> {
     fn new(inner: &'a str) -> Self {
         Self { inner }
+    }
+}
+
+struct CountedStr<'a> {
+    inner: &'a str,
+    char_len: usize,
+}
+
+impl CharLen for CountedStr<'_> {
+    fn char_len(&self) -> usize {
+        self.char_len
+    }
+}
+
+impl Deref for CountedStr<'_> {
+    type Target = str;
+    fn deref(&self) -> &Self::Target {
+        self.inner
     }
 }
 
